@@ -126,7 +126,7 @@ Join(u, p, z) ==
      /\ committed' = CommitTo(committed, u, ShareOf(p), k)
      /\ total' = TotalAdd(total, ShareOf(p), k)
      /\ UNCHANGED <<vault, now, queue>>
-     /\ ev' = Ev("amm.MsgJoinPool", u, [pool |-> p, maxIn |-> need, shareOut |-> k], [shareOut |-> k, tokenIn |-> need])
+     /\ ev' = Ev("amm.MsgJoinPool", u, [pool |-> p, maxIn |-> need, shareOut |-> k, mode |-> "all"], [shareOut |-> k, tokenIn |-> need])
      /\ Step([a |-> "join", u |-> u, p |-> p, sz |-> SizeClass(z), mode |-> "all"])
 
 \* amm ExitPool: payout rounded down; never all shares
